@@ -143,6 +143,7 @@ type ContractSet struct {
 	LemmaOrder []string
 	GlobalInvs []*GlobalInv
 	Guards     []*Guard
+	Globals    []*GlobalDecl
 	Files      []string
 	Errors     []string
 }
@@ -159,7 +160,7 @@ var clauseKeywords = map[string]bool{
 	"package": true, "func": true, "iface": true, "requires": true, "ensures": true, "assigns": true,
 	"decreases": true, "tags": true, "dispatch": true, "replay": true, "spec": true, "pred": true,
 	"ghost": true, "axiom": true, "pure": true, "lemma": true, "entry": true, "exit": true, "assert": true, "trusted": true, "params": true,
-	"globalinv": true, "guard": true, "call": true, "unfold": true, "use": true, "assume": true, "end": true, "opaque": true,
+	"globalinv": true, "guard": true, "global": true, "call": true, "unfold": true, "use": true, "assume": true, "end": true, "opaque": true,
 }
 
 func isClauseStart(s string) bool {
@@ -325,6 +326,19 @@ func (cs *ContractSet) LoadFile(path, defaultPkg string) {
 				continue
 			}
 			cs.Axioms = append(cs.Axioms, &Axiom{Name: strings.TrimSpace(rest[:idx]), Expr: e, Text: rest[idx+1:], File: path, Line: rc.line})
+		case kw == "global":
+			// global NAME immutable|guarded -- why
+			why := ""
+			if i := strings.Index(rest, "--"); i >= 0 {
+				why = strings.TrimSpace(rest[i+2:])
+				rest = strings.TrimSpace(rest[:i])
+			}
+			f := strings.Fields(rest)
+			if len(f) != 2 || (f[1] != "immutable" && f[1] != "guarded") {
+				fail(rc.line, "global NAME immutable|guarded -- why")
+				continue
+			}
+			cs.Globals = append(cs.Globals, &GlobalDecl{Pkg: pkg, Name: f[0], Mode: f[1], Why: why, File: path, Line: rc.line})
 		case kw == "guard":
 			var gtags []string
 			if m := tagRe.FindStringSubmatch(rest); m != nil {
